@@ -326,3 +326,144 @@ func (e *Engine) locksetFunction(fn *ssa.Function, mutexOf map[string]string) []
 	sort.Strings(findings)
 	return findings
 }
+
+// Mechanical scan "global-alias" (C16, cross-talk): a map, slice or pointer obtained from a package-level variable of the
+// repository (directly or through lookup / index / range / a local it was assigned to) must not be stored into a struct
+// field, a map or a slice: it would make state reachable from a device (or any other object) shared between all devices,
+// which the global-write scan - it only sees writes that name the global - cannot notice.
+func (e *Engine) scanGlobalAlias() ScanResult {
+	res := ScanResult{Name: "global-alias", What: "no map / slice / pointer obtained from a package-level variable of the repository packages under contract is stored into a field, map or slice (state reachable from one device would be shared by all)"}
+	isRef := func(t types.Type) bool {
+		switch t.Underlying().(type) {
+		case *types.Map, *types.Slice, *types.Pointer, *types.Chan:
+			return true
+		}
+		return false
+	}
+	inScope := map[string]bool{}
+	for _, rel := range contractPkgs {
+		inScope[modPath+"/"+rel] = true
+	}
+	var fns []*ssa.Function
+	for _, rel := range contractPkgs {
+		sp := e.ssaPkg[modPath+"/"+rel]
+		if sp == nil {
+			continue
+		}
+		for _, m := range sp.Members {
+			switch v := m.(type) {
+			case *ssa.Function:
+				fns = append(fns, v)
+				fns = append(fns, v.AnonFuncs...)
+			case *ssa.Type:
+				for _, t := range []types.Type{v.Type(), types.NewPointer(v.Type())} {
+					ms := e.prog.MethodSets.MethodSet(t)
+					for i := 0; i < ms.Len(); i++ {
+						if f := e.prog.MethodValue(ms.At(i)); f != nil && f.Pkg == sp {
+							fns = append(fns, f)
+							fns = append(fns, f.AnonFuncs...)
+						}
+					}
+				}
+			}
+		}
+	}
+	seenFn := map[*ssa.Function]bool{}
+	for _, fn := range fns {
+		if seenFn[fn] || len(fn.Blocks) == 0 || strings.HasPrefix(fn.Name(), "init") {
+			continue
+		}
+		seenFn[fn] = true
+		res.Checked++
+		tainted := map[ssa.Value]string{}
+		taintedAlloc := map[*ssa.Alloc]string{}
+		for changed := true; changed; {
+			changed = false
+			mark := func(v ssa.Value, src string) {
+				if _, ok := tainted[v]; !ok && src != "" {
+					tainted[v] = src
+					changed = true
+				}
+			}
+			for _, b := range fn.Blocks {
+				for _, in := range b.Instrs {
+					switch u := in.(type) {
+					case *ssa.UnOp:
+						if u.Op != token.MUL {
+							continue
+						}
+						if g, ok := u.X.(*ssa.Global); ok && g.Pkg != nil && inScope[g.Pkg.Pkg.Path()] && isRef(u.Type()) {
+							mark(u, g.Pkg.Pkg.Name()+"."+g.Name())
+						}
+						if a, ok := u.X.(*ssa.Alloc); ok {
+							mark(u, taintedAlloc[a])
+						}
+						if src, ok := tainted[u.X]; ok && isRef(u.Type()) {
+							mark(u, src) // load through a tainted address
+						}
+					case *ssa.Lookup:
+						if isRef(u.Type()) || u.CommaOk {
+							mark(u, tainted[u.X])
+						}
+					case *ssa.Index:
+						mark(u, tainted[u.X])
+					case *ssa.IndexAddr:
+						mark(u, tainted[u.X])
+					case *ssa.FieldAddr:
+						mark(u, tainted[u.X])
+					case *ssa.Field:
+						mark(u, tainted[u.X])
+					case *ssa.Range:
+						mark(u, tainted[u.X])
+					case *ssa.Next:
+						mark(u, tainted[u.Iter])
+					case *ssa.Extract:
+						if isRef(u.Type()) {
+							mark(u, tainted[u.Tuple])
+						}
+					case *ssa.Slice:
+						mark(u, tainted[u.X])
+					case *ssa.Phi:
+						for _, ed := range u.Edges {
+							mark(u, tainted[ed])
+						}
+					case *ssa.Store:
+						if a, ok := u.Addr.(*ssa.Alloc); ok {
+							if src, ok := tainted[u.Val]; ok && taintedAlloc[a] == "" {
+								taintedAlloc[a] = src
+								changed = true
+							}
+						}
+					}
+				}
+			}
+		}
+		report := func(pos token.Pos, what, src string) {
+			p := fn.Prog.Fset.Position(pos)
+			res.Findings = append(res.Findings, fmt.Sprintf("%s: %s:%d: %s obtained from package-level variable %s", fn.Name(), shortPath(p.Filename), p.Line, what, src))
+		}
+		for _, b := range fn.Blocks {
+			for _, in := range b.Instrs {
+				switch u := in.(type) {
+				case *ssa.MapUpdate:
+					if src, ok := tainted[u.Value]; ok && isRef(u.Value.Type()) {
+						if _, fromTainted := tainted[u.Map]; !fromTainted {
+							report(u.Pos(), "a map entry is set to a "+u.Value.Type().String(), src)
+						}
+					}
+				case *ssa.Store:
+					if _, local := u.Addr.(*ssa.Alloc); local {
+						continue
+					}
+					if src, ok := tainted[u.Val]; ok && isRef(u.Val.Type()) {
+						if _, fromTainted := tainted[u.Addr]; !fromTainted {
+							report(u.Pos(), "a field or element is set to a "+u.Val.Type().String(), src)
+						}
+					}
+				}
+			}
+		}
+	}
+	sort.Strings(res.Findings)
+	return res
+}
